@@ -85,7 +85,8 @@ Step == /\ outcome = "running" /\ mi <= Len(Sizes) /\ remaining > 0
                 /\ delivered' = [delivered EXCEPT ![mi] = @ + m]
                 /\ stalled' = 0
                 /\ UNCHANGED <<consumed, decoded, held>>
-           ELSE \E d \in {IF Drains /\ held > 0 THEN 0 ELSE Min(PackSize - consumed, Block)} : \E t \in DecoderReturns(d, m) :
+           ELSE \* the decoders are asked only for what the parked bytes do not cover (so an overshoot is not added to them call after call)
+                \E d \in {IF Drains /\ held > 0 THEN 0 ELSE Min(PackSize - consumed, Block)} : \E t \in DecoderReturns(d, m - buf) :
                   LET res == IF buf + t <= m THEN buf + t ELSE m IN
                   /\ consumed' = consumed + d
                   /\ decoded' = decoded + t
@@ -121,7 +122,7 @@ InOrder    == \A i \in 1..Len(Sizes) : (i > mi => delivered[i] = 0)
 Conserved  == Sum(delivered) + buf = decoded                      \* nothing lost, nothing duplicated in the carry-over
 (* C20: what py7zr parks is bounded by the chunk limit (honouring decoders) or one block's expansion *)
 ExpBlock   == (Plain * Block) \div PackSize + 1                  \* what one input block can expand to
-BufBound   == buf <= (IF Honours THEN Limit ELSE Limit + ExpBlock)
+BufBound   == buf <= (IF Honours THEN Slack ELSE Limit + ExpBlock)   \* honouring decoders: at most one call's overshoot stays parked
 (* C20: the memory the pipeline holds at any moment - the input block just read, packed bytes taken from the file but still  *)
 (* inside the decoders, the decoders' output of this call, the carry-over, the chunk handed out - stays within a budget that  *)
 (* depends on the chunk limit, the block size and the overshoot constant only: not on the member's size, not on its ratio.    *)
@@ -131,7 +132,7 @@ Budget     == 3 * Limit + 2 * Slack + 2 * Block
 Resident   == last.d + InHeld + last.tmp + buf + last.res
 MemBound   == Resident <= Budget
 InputBound == InHeld <= Block
-OutBound   == last.tmp <= (IF Honours THEN last.m + Slack ELSE Block)   \* a call's decoder output: the request, or (1:1 coders) the block
+OutBound   == last.tmp <= (IF Honours THEN last.m + Slack ELSE Block)   \* a call's decoder output: at most the request (+ overshoot), or (1:1 coders) the block
 (* a conforming stream is never rejected *)
 NoFalseAlarm == (Short = 0) => outcome # "raised"
 (* C05: the loop ends: with everything delivered, or with an exception when the stream is short *)
